@@ -780,7 +780,8 @@ def run(out, tier, scratch):
                 "with CRS, rotated rasters) with the pyproj/shapely answers replayed as oracle tables; linear dependency graphs of "
                 "same-CRS pairs (aligned, shifted by 1/2, 1/4, 3/8 and by amounts inside/outside the 1e-3 snapping tolerance, scaled "
                 "1/4..5, mirrored, touching, disjoint) fed with the affine returned by the real _check_linear; general-path graphs "
-                "(rotated and EPSG:4326 sources incl. disjoint ones) with oracle tables.  non-trivial = successful call with a "
+                "(rotated and EPSG:4326 sources incl. disjoint ones) with oracle tables; search only (predicate crossref): whole-globe / hemisphere EPSG:4326 rasters against regional rasters "
+                "inside the valid area of UTM 33N, UTM 55S, Australian Albers and Web Mercator, both directions.  non-trivial = successful call with a "
                 "non-default result; distinct = distinct canonical (operation, arguments).  search: brute-force exact references")
     out.assumptions += [
         "exact-rational model of binary64 (linear pairs are generated so that the pixel-to-pixel affine is exact; pairs whose "
@@ -791,6 +792,9 @@ def run(out, tier, scratch):
         "snap_affine / is_affine_st are not modelled: the linear-path theorems hold for every scale+translation affine that "
         "_check_linear may return; the distance between the snapped and the true map is a hypothesis (delta) of the tolerance theorem",
         "VariableSizedTiles offsets are int32 in numpy: totals below 2^31",
+        "predicate crossref (testing of the oracle composition): reference = tile footprints from the affines, densified, moved to "
+        "lon/lat with pyproj and intersected with shapely; required: no exception and every pair overlapping by more than 4 pixels of "
+        "the finer grid is listed; misses explained by the open finding key c12:crossref-chord are reported under that key",
     ]
     cases = gen_cases(out, tier)
     import time as _t
